@@ -90,6 +90,26 @@ def cases(draw, tier='quick'):
     if fs.get('crossing') and 'TSTEP' not in chosen and draw(st.booleans()):
         chosen = list(chosen) + ['TSTEP']
     win = [[d] + draw(windows(dlen[d])) for d in chosen]
+    if 'TSTEP' in chosen and fs['nt'] >= 2 and draw(st.integers(0, 2)) > 0:
+        # two thirds of the time windows keep >= 2 steps; in files built to
+        # cross midnight they contain the crossing
+        nt = fs['nt']
+        times = I.model(fs).times
+        cross = [i for i in range(1, nt)
+                 if times[i].date() != times[i - 1].date()]
+        if cross and draw(st.booleans()):
+            c = draw(st.sampled_from(cross))
+            a = draw(st.integers(0, c - 1))
+            b = draw(st.integers(c + 1, nt))
+        else:
+            a = draw(st.integers(0, nt - 2))
+            b = draw(st.integers(a + 2, nt))
+        form = draw(st.integers(0, 3))
+        lo = None if (a == 0 and form & 1) else (a - nt if form == 2 else a)
+        hi = None if (b == nt and form & 2) else (b - nt if (
+            b < nt and form == 1) else b)
+        win = [w if w[0] != 'TSTEP' else ['TSTEP', 'slice', [lo, hi, None]]
+               for w in win]
     return dict(file=fs, win=win)
 
 
